@@ -285,6 +285,20 @@ def run(chk):
          'uses of an imported predicate are renamed with %s' % (norm(src[0], 60) if src else '?'),
          fi=f.fi)
 
+  # order of the two renaming passes: own predicates get the file prefix first,
+  # then the uses of imported names are pointed at the imported definitions.
+  # The other way round a predicate the importer defines under the imported
+  # name swallows the import (both are renamed together) and the
+  # "imported but not used" / "overridden" diagnostics never fire.
+  ren_nodes = [n for n in f.cfg.stmt_nodes() if f.cfg.stmt[n] is ren]
+  imp_nodes = [n for n, c in f.all_calls() if any(c is y for y in imp)]
+  later = [n for n in imp_nodes if ren_nodes and ren_nodes[0] in f.cfg.reachable(n)]
+  chk.ob('C12-R3', bool(ren_nodes) and bool(imp_nodes) and not later, None,
+         'own predicates are prefixed before imported names are resolved',
+         'the file prefix is applied after the imported names were renamed: a '
+         'predicate the importing file defines under the name it imports is '
+         'merged with the import instead of being diagnosed', fi=f.fi)
+
   rp = FnView(repo, 'parse.RenamePredicate')
   rets = rp.returns()
   # the only return is the last statement of the function body
